@@ -17,6 +17,7 @@ func init() { Registry["C06"] = c06 }
 const numaPkg = "pkg/scheduler/plugins/nodenumaresource"
 
 func c06(c *Ctx) {
+	numaReleaseWritesBack(c)
 	r := c.R
 	r.Rule("PATH(tombstone): the delete handler treats a cache.DeletedFinalStateUnknown (delivered by value) like the object inside it: both reach the release, and no assertion to the pointer type exists")
 	c.Tombstone("PATH", numaPkg, "podEventHandler", "OnDelete", "deletePod")
